@@ -749,6 +749,13 @@ def exit_checks(ctx, scen_fn, pid, what_table):
         stats["exit_%s" % r["exit"]] += 1
         stats["class:" + r["label"].split(":")[0]] += 1
         w = None
+        pr = r.get("probe") or {}
+        if (pr.get("parse_ok") and pr.get("consistent") and pr.get("places", 0) >= 5000 and not r["panicked"]
+                and (r["exit"] in (1000, 1001, 134, 137))):
+            # a well-formed instance with an absurd number of course places (a corrupted size field): time / memory exhaustion is a
+            # resource limit outside the claim (DESIGN 3, trusted base of C10/C15); a panic would still be reported
+            stats["resource_limit_skipped"] += 1
+            continue
         if r["exit"] in (1000, 1001) or r["panicked"] or r["exit"] == 101 or r["exit"] >= 128:
             w = what_table["crash"] % (r["exit"], r["stderr"][-200:].replace("\n", " "))
         elif r["flags"] is None:
